@@ -38,6 +38,7 @@ mod lower;
 mod patpos;
 mod patrule;
 mod nametest;
+mod deftypes;
 mod gopp;
 mod probe;
 mod rng;
@@ -81,6 +82,7 @@ fn main() {
         "dce" => dce::main(&args),
         "gocomp" => gocomp::main(&args),
         "c02names" => nametest::main(&args),
+        "c02deftypes" => deftypes::main(&args),
         "unify" => unify::main(&args),
         "solve" => solve::main(&args),
         "infer" => infer::main(&args),
